@@ -38,4 +38,17 @@ def metaDebug (sni : List Char) (creds : Option (List Char)) (protocol channel :
   "ConnectionMeta { sni: \"".toList ++ shown ++ "\", protocol: ".toList ++ protocol.toList ++ ", channel: ".toList ++
     channel.toList ++ ", sni_auth_creds: ".toList ++ (if creds.isSome then "Some(\"scrubbed\")".toList else "None".toList) ++ " }".toList
 
+/-! ## The loggers' filter (`log_utils::is_loggable`)
+
+Levels as in the `log` crate: error = 1 … trace = 5; a maximum of 0 is "off". Records of the TLS library at
+trace level are dropped whatever the maximum: they dump whole handshake messages, the ClientHello with its
+server name (and the credentials label in it) among them. -/
+
+def traceLevel : Nat := 5
+
+def tlsLibrary : List Char := ['r', 'u', 's', 't', 'l', 's']
+
+def loggable (maxLevel level : Nat) (target : List Char) : Bool :=
+  decide (level ≤ maxLevel) && !(level == traceLevel && tlsLibrary.isPrefixOf target)
+
 end TT.Scrub
